@@ -390,7 +390,7 @@ public:
         }
         memcpy(timeSignal, other.timeSignal, sizeof(ValueClassSrcFftw) * nbPoints);
         memcpy(freqSignal, other.freqSignal, sizeof(ValueClassDestFftw) * nbPoints);
-
+        return *this;
     }
     /** Copy r-constructor move data from given parameter object */
     FFftwCore(FFftwCore&& other)
@@ -423,6 +423,7 @@ public:
         other.freqSignal = nullptr;
         memset(other.plan_s2d, 0, sizeof(plan_s2d));
         memset(other.plan_d2s, 0, sizeof(plan_d2s));
+        return *this;
     }
     /** Release all data */
     ~FFftwCore(){
